@@ -43,3 +43,26 @@ pub assume_specification<T, U, F: FnOnce(T) -> U> [Option::<T>::map_or] (o: Opti
 pub fn verif_elem<T>(v: &Vec<T>, i: usize) -> (r: T) requires i < v@.len() ensures r == v@[i as int] { unimplemented!() }
 #[verifier::external_body]
 pub fn verif_elem_arr<T, const N: usize>(v: &[T; N], i: usize) -> (r: T) requires i < N ensures r == v@[i as int] { unimplemented!() }
+// ---- std collections used as record fields (ASSUMED model: a finite map view) ----
+#[verifier::external_body] #[verifier::accept_recursive_types(K)] #[verifier::accept_recursive_types(V)]
+pub struct BTreeMap<K, V> { _k: core::marker::PhantomData<(K, V)> }
+#[verifier::external_body] #[verifier::accept_recursive_types(K)] #[verifier::accept_recursive_types(V)]
+pub struct HashMap<K, V> { _k: core::marker::PhantomData<(K, V)> }
+pub uninterp spec fn btree_view<K, V>(m: BTreeMap<K, V>) -> vstd::map::Map<K, V>;
+impl<K, V> Clone for BTreeMap<K, V> { #[verifier::external_body] fn clone(&self) -> (r: Self) ensures r == *self { unimplemented!() } }
+impl<K, V> Clone for HashMap<K, V> { #[verifier::external_body] fn clone(&self) -> (r: Self) ensures r == *self { unimplemented!() } }
+/// greatest key of a non-empty u64-keyed tree
+pub uninterp spec fn btree_max_key<V>(m: BTreeMap<u64, V>) -> u64;
+pub broadcast axiom fn ax_btree_max_key<V>(m: BTreeMap<u64, V>, k: u64)
+    requires #[trigger] btree_view(m).contains_key(k)
+    ensures btree_view(m).contains_key(btree_max_key(m)), k <= btree_max_key(m);
+impl<V> BTreeMap<u64, V> {
+    #[verifier::external_body]
+    pub fn last_key_value(&self) -> (r: Option<(&u64, &V)>)
+        ensures match r {
+            None => btree_view(*self).dom() =~= vstd::set::Set::<u64>::empty(),
+            Some((k, v)) => btree_view(*self).contains_key(*k) && *k == btree_max_key(*self) && btree_view(*self)[*k] == *v,
+        } { unimplemented!() }
+    #[verifier::external_body]
+    pub fn is_empty(&self) -> (r: bool) ensures r == (btree_view(*self).dom() =~= vstd::set::Set::<u64>::empty()) { unimplemented!() }
+}
